@@ -162,8 +162,8 @@ def publisher_for(inst, kind, key):
 _I = st.integers
 _TUN = st.tuples(_I(0, 14), _I(0, 11), st.booleans(), _I(0, 3), _I(0, 2), _I(0, 1), _I(0, 3))
 _OP = st.tuples(_I(0, 3), _I(0, 1), _I(0, 5), _I(0, 11))
-_CASE = st.tuples(st.lists(_TUN, min_size=1, max_size=6), _I(0, 4), _I(0, 5), st.lists(st.tuples(_I(0, 5), _I(0, 11)), max_size=3),
-                  st.lists(_OP, max_size=14), st.booleans())
+_CASE = st.tuples(st.lists(_TUN, min_size=1, max_size=6), _I(0, 4), _I(0, 5), st.lists(st.tuples(_I(0, 5), _I(0, 11)), max_size=4),
+                  st.lists(_OP, min_size=1, max_size=16), st.booleans())
 ATTRS = ["speed", "kP", "x", "enabled_flag", "label", "pts"]
 NAMES = [["alpha", "beta"], ["left arm", "right arm"], ["m", "m2"], ["a", "a_b"], ["Shooter", "shooter"], ["c1", "c1x"]]
 OWNERS = ["components", "components", "autonomous", "robot", "components"]
